@@ -1,6 +1,6 @@
 """C11 — decoding is independent of arrival order and of surplus shards (bookkeeping part)."""
 import re
-from . import core, resetrules, c12, c05, roles as roles_mod
+from . import core, resetrules, c12, c05, summ, roles as roles_mod
 from .core import hcanon, hshow
 
 EXPLANATION = (
@@ -47,8 +47,10 @@ def run(ctx):
     ctx.rule('C11.g-one-locator-evaluation', 'the erasure locator every decoder derives from the bitmap is evaluated by the one shared eval_poly, whatever engine is used (clause shared with C03.d)')
     from . import c03
     ctx.guard('C11.analysable', ctx.shared, {'C03.d-one-eval-poly': 'C11.g-one-locator-evaluation'}, c03.eval_poly, ctx, ctx.facts(cfgs[0]), cfgs[0])
+    ctx.rule('C11.m-no-history-lengths', 'nothing a decode reads depends on how large the object has ever been (lengths of grow-only containers): otherwise positions beyond the current configuration count as erasures and an exact set restores something else than a superset (clause shared with C05.h)')
+    ctx.guard('C11.analysable', ctx.shared, {'C05.h-grow-only-lengths': 'C11.m-no-history-lengths'}, c05.grow_only_lengths, ctx, ctx.facts(cfgs[0]), cfgs[0])
     ctx.rule('C11.l-engines-run-one-schedule', 'the truncated transforms, whose truncation depends on which shards were given, are the reference schedule in every engine: a surplus shard or a different set does not change the result on one engine only (clause shared with C03.a)')
-    for c_ in ('x86_64', 'aarch64'):
+    for c_ in ('x86_64',):      # the Neon schedule is compared by C03 / C09 / C14 (aarch64 facts); here the x86 engines
         ctx.guard('C11.analysable', ctx.shared, {'C03.a-schedule-siblings': 'C11.l-engines-run-one-schedule'}, c03.schedules, ctx, ctx.facts(c_), c_)
     for cfg in cfgs:
         facts = ctx.facts(cfg)
@@ -174,12 +176,16 @@ def decoder_inputs(ctx, facts, cfg):
         if fn.impl_trait == 'rate::RateDecoder' and fn.name == 'decode' and not (fn.impl_self_adt or '').startswith('rate::rate_default'):
             n += 1
             bad = []
-            for b, t in fn.body.calls():
+            # the epilogue may live in a private method of the work type (`decode_end`): analysed in place
+            wadt = roles_mod.DEC_WORK
+            fb = core.inlined_fn(facts, p, lambda g, t: (g.impl_self_adt == wadt and not g.reachable and not g.impl_trait and g.path not in allowed
+                                                        and g.kind != 'Closure' and g.body.arg_count == 1), tag='c11b').body
+            for b, t in fb.calls():
                 q = t['callee'].get('path')
                 g = facts.fns.get(q)
                 if g is None:
                     continue
-                touches_work = any('DecoderWork' in fn.body.local_ty(core.op_place(a)['l']) for a in t['args'] if core.op_place(a))
+                touches_work = any('DecoderWork' in fb.local_ty(core.op_place(a)['l']) for a in t['args'] if core.op_place(a))
                 if touches_work and q not in allowed:
                     bad.append((q, t['line']))
             if bad:
@@ -280,9 +286,9 @@ def shortcut(ctx, facts, cfg):
                 eb = n['else']
                 calls = core.hir_find(eb, lambda m: m.get('k') in ('call', 'mcall'))
                 names = [(m.get('path') or (m['f'].get('path') if m.get('k') == 'call' and m['f'].get('k') == 'path' else None)) for m, _ in calls]
-                extra = [x for x in names if x and not (x.endswith('::Ok') or x.endswith('DecoderResult::<\'a>::new'))]
+                extra = [x for x in names if x and not (x.endswith('::Ok') or x.endswith('DecoderResult::<\'a>::new') or only_builds_result(facts, x))]
                 assigns = core.hir_find(eb, lambda m: m.get('k') in ('assign', 'assignop'))
-                if not extra and not assigns and any(x and x.endswith("DecoderResult::<'a>::new") for x in names):
+                if not extra and not assigns and any(x and (x.endswith("DecoderResult::<'a>::new") or only_builds_result(facts, x)) for x in names):
                     okk = True
                 else:
                     ctx.violation(R, 'shortcut-touches-work', '%s does more than return the result on the nothing-to-restore path (%s)' % (p, extra),
@@ -291,6 +297,19 @@ def shortcut(ctx, facts, cfg):
                 ctx.ok(R, '%s:untouched-result@%s' % (p, cfg), None)
             else:
                 ctx.violation(R, 'no-let-else', '%s has no `let Some(..) = decode_begin()? else { return result }` shortcut (unrecognised idiom)' % p, site=fn.span, fn=p, cfg=cfg)
+
+
+def only_builds_result(facts, path):
+    """a private method of the work type whose whole body is `DecoderResult::new(self)`: no other crate call, no assignment"""
+    g = facts.fns.get(path)
+    if g is None or g.reachable or g.impl_self_adt != roles_mod.DEC_WORK or not g.hir:
+        return False
+    calls = [t['callee'].get('path') for b, t in g.body.calls() if t['callee'].get('local')]
+    if calls != ["decoder_result::DecoderResult::<'a>::new"]:
+        return False
+    if core.hir_find(g.hir['value'], lambda m: m.get('k') in ('assign', 'assignop')):
+        return False
+    return not any(summ.ext_kind(t['callee'].get('path') or '') == 'mut' for b, t in g.body.calls())
 
 
 def placement(ctx, facts, cfg):
